@@ -16,7 +16,8 @@ use serde_json::{json, Value};
 
 pub struct C32;
 
-const RANGES: [&str; 16] = ["", "0", "1", "2", "5", "1:3", "0:1", "2:100", "0:4294967294", "7", "3:1", "1:1", "abc", "1,2", "-1", "4294967295"];
+const RANGES: [&str; 20] = ["", "0", "1", "2", "5", "1:3", "0:1", "2:100", "0:4294967294", "7", "3:1", "1:1", "abc", "1,2", "-1", "4294967295", "0:1,0:1", "0,0", "1:2,3", "0:1,"];
+const ATTRS: [u64; 27] = [1, 2, 3, 4, 5, 6, 7, 8, 9, 10, 11, 12, 13, 14, 15, 16, 17, 18, 19, 20, 21, 22, 23, 24, 0, 28, 4294967295];
 const USTR: &str = "héllo wörld ✓ ünïcödé";
 
 #[derive(Clone, Debug, PartialEq)]
@@ -25,6 +26,8 @@ enum Mv {
     Arr(Vec<i32>),
     Str(String),
     Bytes(Vec<u8>),
+    /// an array of Byte
+    BArr(Vec<u8>),
 }
 
 fn to_variant(v: &Mv) -> Variant {
@@ -33,6 +36,7 @@ fn to_variant(v: &Mv) -> Variant {
         Mv::Arr(a) => Variant::from(a.clone()),
         Mv::Str(s) => Variant::String(UAString::from(s.as_str())),
         Mv::Bytes(b) => Variant::ByteString(ByteString::from(b.clone())),
+        Mv::BArr(b) => Variant::from(b.clone()),
     }
 }
 
@@ -41,6 +45,17 @@ fn from_variant(v: &Variant) -> Option<Mv> {
         Variant::Int32(x) => Some(Mv::I32(*x)),
         Variant::String(s) => Some(Mv::Str(s.as_ref().to_string())),
         Variant::ByteString(b) => Some(Mv::Bytes(b.value.clone().unwrap_or_default())),
+        Variant::Array(a) if a.value_type == VariantTypeId::Byte => {
+            let mut out = Vec::new();
+            for x in a.values.iter() {
+                if let Variant::Byte(i) = x {
+                    out.push(*i);
+                } else {
+                    return None;
+                }
+            }
+            Some(Mv::BArr(out))
+        }
         Variant::Array(a) => {
             let mut out = Vec::new();
             for x in a.values.iter() {
@@ -97,11 +112,11 @@ impl Scenario for C32 {
             level: "exploration",
             exhaustive: false,
             layer: "L2 (real server tasks, raw clients) + application actor",
-            rule: "run = seeded history of Write (matching / mismatching type, scalar / array / string / byte string, optional index range) and Read (any attribute id incl. invalid ones, arbitrary range strings) from two sessions on scalar Int32, Int32[6], ASCII string, non-ASCII string and byte string variables, while the application actor flips access levels. Oracle: register model: Good write => access level allowed it and the type is compatible; a Good write is what the next Read returns (index ranges modelled for 1-D arrays, ASCII strings and byte strings); a rejected write leaves the value unchanged; every operation returns a status (no panic, connection alive). non-trivial = an index range, a type mismatch or an access-level change was involved; distinct = op/outcome hash.",
+            rule: "run = seeded history of Write (matching / mismatching type, scalar / array / string / byte string, optional index range) and Read (any attribute id incl. invalid ones, arbitrary range strings) from two sessions on scalar Int32, Int32[6], ASCII string, non-ASCII string, byte string and Byte[] (value rank 1, 0, -2) variables, plus reads and writes of every attribute id of variables, objects, methods, types and unknown nodes, while the application actor flips access levels (current and history bits). Oracle: register model: Good write => the user access level has CurrentWrite and the type is compatible; a Good write is what the next Read returns (index ranges modelled for 1-D arrays, ASCII strings and byte strings), what is stored has the variable's data type, and a Good index-range write (one- or multi-dimensional) is readable with the same range; a rejected write and a write to another attribute leave the value unchanged; every operation returns a status (no panic, connection alive). non-trivial = an index range, a type mismatch or an access-level change was involved; distinct = op/outcome hash.",
             real: vec!["AttributeService (read, write)", "Variable::value / set_value / set_value_range", "Variant::range_of / set_range_of, UAString / ByteString substring", "NumericRange parser", "session access level checks", "server transport tasks"],
             stubbed: vec!["TCP socket"],
             assumptions: vec!["for non-ASCII strings and multi-dimensional ranges only the no-panic and unchanged-on-reject clauses are checked"],
-            fault_kinds: vec!["index_range", "type_mismatch", "access_level_changed", "non_ascii_range", "second_session"],
+            fault_kinds: vec!["index_range", "type_mismatch", "access_level_changed", "history_access_bits", "non_ascii_range", "second_session", "other_attribute_or_node", "multi_dimension_range"],
         }
     }
     fn runs(&self, tier: Tier) -> u64 {
@@ -116,12 +131,21 @@ impl Scenario for C32 {
         let len = if tier == Tier::Thorough { rng.urange(5, 50) } else { rng.urange(4, 25) };
         let mut steps = Vec::new();
         for _ in 0..len {
-            let var = rng.below(6);
+            let var = rng.below(9);
             let sess = rng.below(2);
-            match rng.below(10) {
-                0..=3 => steps.push(json!({"op": "write", "var": var, "vk": rng.below(7), "range": *rng.pick(&RANGES), "seed": rng.below(1000), "sess": sess})),
+            match rng.below(11) {
+                10 => {
+                    // other attributes and other kinds of node: a status for every combination
+                    if rng.chance(0.5) {
+                        steps.push(json!({"op": "write_attr", "node": rng.below(16), "attr": *rng.pick(&ATTRS), "vk": rng.below(10), "range": if rng.chance(0.2) { *rng.pick(&RANGES) } else { "" }, "seed": rng.below(1000), "sess": sess}));
+                    } else {
+                        steps.push(json!({"op": "read_attr", "node": rng.below(16), "attr": *rng.pick(&ATTRS), "range": if rng.chance(0.3) { *rng.pick(&RANGES) } else { "" }, "sess": sess}));
+                    }
+                }
+                0..=3 => steps.push(json!({"op": "write", "var": var, "vk": if var >= 6 && rng.chance(0.6) { *rng.pick(&[4u64, 7, 7]) } else { rng.below(8) }, "range": *rng.pick(&RANGES), "seed": rng.below(1000), "sess": sess})),
                 4..=7 => steps.push(json!({"op": "read", "var": var, "attr": *rng.pick(&[13u64, 13, 13, 13, 1, 2, 3, 4, 5, 14, 15, 17, 18, 0, 28, 99, 4294967295]), "range": *rng.pick(&RANGES), "sess": sess})),
-                8 => steps.push(json!({"op": "access", "var": var, "readable": rng.chance(0.7), "writable": rng.chance(0.6), "user_writable": rng.chance(0.7), "user_readable": rng.chance(0.8)})),
+                8 => steps.push(json!({"op": "access", "var": var, "readable": rng.chance(0.7), "writable": rng.chance(0.6), "user_writable": rng.chance(0.7), "user_readable": rng.chance(0.8),
+                    "extra": if rng.chance(0.5) { rng.below(4) << 2 } else { 0 }, "user_extra": if rng.chance(0.5) { rng.below(4) << 2 } else { 0 }})),
                 _ => steps.push(json!({"op": "write", "var": var, "vk": var, "range": "", "seed": rng.below(1000), "sess": sess})),
             }
         }
@@ -135,7 +159,13 @@ impl Scenario for C32 {
 
 fn gen_value(vk: u64, seed: u64) -> (Variant, Option<Mv>) {
     let s = seed as i32;
-    match vk % 7 {
+    match vk % 10 {
+        7 => {
+            let b: Vec<u8> = (0..(1 + seed % 6)).map(|i| (seed as u8).wrapping_mul(3).wrapping_add(i as u8)).collect();
+            (Variant::from(b.clone()), Some(Mv::BArr(b)))
+        }
+        8 => (Variant::from(LocalizedText::from("text")), None),
+        9 => (Variant::UInt32(seed as u32), None),
         0 => (Variant::Int32(s), Some(Mv::I32(s))),
         1 => {
             let n = 1 + (seed % 4) as usize;
@@ -169,6 +199,10 @@ fn type_compatible(var_kind: &str, v: &Variant) -> bool {
         ("scalar", Variant::Array(a)) => a.value_type == VariantTypeId::Int32,
         ("str", Variant::String(_)) | ("ustr", Variant::String(_)) => true,
         ("bytes", Variant::ByteString(_)) => true,
+        ("barr1" | "barr0" | "barrany", Variant::Array(a)) => a.value_type == VariantTypeId::Byte,
+        // Part 4: a ByteString may be written to a one-dimensional Byte array; whether value rank 0
+        // counts is left open here, what is stored afterwards is checked instead (stored-type clause)
+        ("barr1" | "barr0" | "barrany", Variant::ByteString(_)) => true,
         (_, Variant::Empty) => true,
         _ => false,
     }
@@ -189,18 +223,28 @@ async fn run(plan: &Value, ctx: &mut Ctx) {
             ("ustr", Mv::Str(USTR.to_string())),
             ("bytes", Mv::Bytes(vec![1, 2, 3, 4, 5, 6, 7, 8])),
             ("scalar", Mv::I32(-1)),
+            ("barr1", Mv::BArr(vec![1, 2, 3, 4, 5, 6])),
+            ("barr0", Mv::BArr(vec![9, 8, 7, 6])),
+            ("barrany", Mv::BArr(vec![20, 21, 22, 23, 24])),
         ];
         for (i, (kind, val)) in defs.into_iter().enumerate() {
             let node = NodeId::new(ns, format!("{}{}", kind, i));
             let dt = match kind {
                 "scalar" | "array" => DataTypeId::Int32,
                 "bytes" => DataTypeId::ByteString,
+                "barr1" | "barr0" | "barrany" => DataTypeId::Byte,
                 _ => DataTypeId::String,
             };
             let mut b = VariableBuilder::new(&node, format!("{}{}", kind, i), format!("{}{}", kind, i)).data_type(dt).organized_by(ObjectId::ObjectsFolder).writable();
             b = b.value(to_variant(&val));
-            if kind == "array" {
+            if kind == "array" || kind == "barr1" {
                 b = b.value_rank(1);
+            }
+            if kind == "barr0" {
+                b = b.value_rank(0);
+            }
+            if kind == "barrany" {
+                b = b.value_rank(-2);
             }
             b.insert(&mut a);
             vars.push(Var {
@@ -214,6 +258,20 @@ async fn run(plan: &Value, ctx: &mut Ctx) {
             });
         }
     }
+    // nodes of other classes (and one that does not exist) for the every-combination clause
+    let others: Vec<NodeId> = vec![
+        ObjectId::Server.into(),
+        ObjectId::ObjectsFolder.into(),
+        MethodId::Server_GetMonitoredItems.into(),
+        VariableTypeId::BaseDataVariableType.into(),
+        ObjectTypeId::BaseObjectType.into(),
+        ReferenceTypeId::Organizes.into(),
+        DataTypeId::Int32.into(),
+        VariableId::Server_ServerStatus_CurrentTime.into(),
+        VariableId::Server_ServerStatus.into(),
+        NodeId::new(7, "nowhere"),
+        NodeId::null(),
+    ];
     let mut conns = Vec::new();
     for s in 0..2u16 {
         let mut c = Conn::connect(&server, 100.0, 1 << 20, 55000 + s);
@@ -256,6 +314,12 @@ async fn run(plan: &Value, ctx: &mut Ctx) {
                     if uw {
                         ual |= UserAccessLevel::CURRENT_WRITE;
                     }
+                    // bits that have nothing to do with writing the current value
+                    al |= AccessLevel::from_bits_truncate(s["extra"].as_u64().unwrap_or(0) as u8 & 12);
+                    ual |= UserAccessLevel::from_bits_truncate(s["user_extra"].as_u64().unwrap_or(0) as u8 & 12);
+                    if s["extra"].as_u64().unwrap_or(0) | s["user_extra"].as_u64().unwrap_or(0) != 0 {
+                        ctx.fault("history_access_bits");
+                    }
                     v.set_access_level(al);
                     v.set_user_access_level(ual);
                     vars[vi].readable = r;
@@ -272,6 +336,9 @@ async fn run(plan: &Value, ctx: &mut Ctx) {
                     ctx.fault("index_range");
                     if vars[vi].kind == "ustr" {
                         ctx.fault("non_ascii_range");
+                    }
+                    if range.contains(',') {
+                        ctx.fault("multi_dimension_range");
                     }
                 }
                 let compatible = type_compatible(vars[vi].kind, &val);
@@ -316,7 +383,9 @@ async fn run(plan: &Value, ctx: &mut Ctx) {
                     // update the model
                     match parse_range(&range) {
                         Some(None) => {
-                            if let Some(ref mv) = mv {
+                            if let (true, Some(Mv::Bytes(b))) = (vars[vi].kind.starts_with("barr"), &mv) {
+                                vars[vi].value = Mv::BArr(b.clone());
+                            } else if let Some(ref mv) = mv {
                                 vars[vi].value = mv.clone();
                             } else if let Variant::Empty = val {
                             } else {
@@ -325,6 +394,17 @@ async fn run(plan: &Value, ctx: &mut Ctx) {
                         }
                         Some(Some((lo, hi))) => {
                             if let (Mv::Arr(cur), Some(Mv::Arr(src))) = (&mut vars[vi].value, &mv) {
+                                let mut idx = lo;
+                                while idx < cur.len() && idx <= hi && idx - lo < src.len() {
+                                    cur[idx] = src[idx - lo];
+                                    idx += 1;
+                                }
+                            }
+                            let bsrc: Option<Vec<u8>> = match &mv {
+                                Some(Mv::BArr(b)) | Some(Mv::Bytes(b)) => Some(b.clone()),
+                                _ => None,
+                            };
+                            if let (Mv::BArr(cur), Some(src)) = (&mut vars[vi].value, bsrc) {
                                 let mut idx = lo;
                                 while idx < cur.len() && idx <= hi && idx - lo < src.len() {
                                     cur[idx] = src[idx - lo];
@@ -352,6 +432,95 @@ async fn run(plan: &Value, ctx: &mut Ctx) {
                     }
                 } else if let Some(actual) = full.as_ref().and_then(from_variant) {
                     vars[vi].value = actual; // resynchronise where the model does not know the semantics
+                }
+                if st.is_good() {
+                    // what is stored after a successful write has the variable's data type
+                    if let Some(v) = full.as_ref() {
+                        if !stored_type_ok(vars[vi].kind, v) {
+                            ctx.violate("C32", "stored-type-differs-from-data-type", vars[vi].kind, format!("after a Good Write of {:?} (range '{}') the {} variable holds a {:?}", val.type_id(), range, vars[vi].kind, v.type_id()));
+                        }
+                    }
+                    // a successful index-range write is observed by a Read with the same range
+                    if !range.is_empty() && vars[vi].user_readable {
+                        let hdr = conns[si].header();
+                        let req: SupportedMessage = ReadRequest {
+                            request_header: hdr,
+                            max_age: 0.0,
+                            timestamps_to_return: TimestampsToReturn::Neither,
+                            nodes_to_read: Some(vec![ReadValueId { node_id: vars[vi].node.clone(), attribute_id: AttributeId::Value as u32, index_range: UAString::from(range.as_str()), data_encoding: QualifiedName::null() }]),
+                        }
+                        .into();
+                        let r = conns[si].call(req).await;
+                        if let Recv::Msg(_, SupportedMessage::ReadResponse(resp)) = &r {
+                            let rst = resp.results.as_ref().and_then(|v| v.first()).map(|d| d.status.unwrap_or(StatusCode::Good));
+                            ctx.log("readback", rst.map(|s| s.name()).unwrap_or("-"));
+                            ctx.probe("range_write_read_back");
+                            if let Some(rst) = rst {
+                                if !rst.is_good() {
+                                    ctx.violate("C32", "range-write-not-readable", vars[vi].kind, format!("Write with index range '{}' returned Good but a Read with the same range returns {}", range, rst.name()));
+                                }
+                            }
+                        }
+                    }
+                }
+            }
+            "write_attr" | "read_attr" => {
+                ctx.fault("other_attribute_or_node");
+                let ni = s["node"].as_u64().unwrap_or(0) as usize;
+                let node: NodeId = if ni < vars.len() { vars[ni].node.clone() } else { others[(ni - vars.len()) % others.len()].clone() };
+                let attr = s["attr"].as_u64().unwrap_or(13) as u32;
+                let before = if ni < vars.len() { read_full(&server, &node) } else { None };
+                let hdr = conns[si].header();
+                let req: SupportedMessage = if op == "write_attr" {
+                    let (val, _) = gen_value(s["vk"].as_u64().unwrap_or(0), s["seed"].as_u64().unwrap_or(0));
+                    WriteRequest {
+                        request_header: hdr,
+                        nodes_to_write: Some(vec![WriteValue { node_id: node.clone(), attribute_id: attr, index_range: if range.is_empty() { UAString::null() } else { UAString::from(range.as_str()) }, value: DataValue::value_only(val) }]),
+                    }
+                    .into()
+                } else {
+                    ReadRequest {
+                        request_header: hdr,
+                        max_age: 0.0,
+                        timestamps_to_return: TimestampsToReturn::Both,
+                        nodes_to_read: Some(vec![ReadValueId { node_id: node.clone(), attribute_id: attr, index_range: if range.is_empty() { UAString::null() } else { UAString::from(range.as_str()) }, data_encoding: QualifiedName::null() }]),
+                    }
+                    .into()
+                };
+                let r = conns[si].call(req).await;
+                let st: Option<StatusCode> = match &r {
+                    Recv::Msg(_, SupportedMessage::WriteResponse(resp)) => resp.results.as_ref().and_then(|v| v.first().cloned()),
+                    Recv::Msg(_, SupportedMessage::ReadResponse(resp)) => resp.results.as_ref().and_then(|v| v.first()).map(|d| d.status.unwrap_or(StatusCode::Good)),
+                    _ => None,
+                };
+                ctx.log(&format!("{}(n{},attr{})>{}", op, ni.min(vars.len()), attr, st.map(|s| s.name().to_string()).unwrap_or_else(|| l2::recv_kind(&r))), &range);
+                if st.is_none() && !matches!(r, Recv::Msg(_, SupportedMessage::ServiceFault(_))) {
+                    ctx.violate("C32", if op == "write_attr" { "no-status-for-write" } else { "no-status-for-read" }, "other", format!("{} of attribute {} of {} was answered with {}", op, attr, node, l2::recv_kind(&r)));
+                }
+                if ni < vars.len() && op == "write_attr" {
+                    if attr == AttributeId::Value as u32 {
+                        // an ordinary value write that the register model did not follow: resynchronise
+                        if let Some(actual) = read_full(&server, &node).as_ref().and_then(from_variant) {
+                            vars[ni].value = actual;
+                        }
+                    } else {
+                        // a write to another attribute never touches the value
+                        let after = read_full(&server, &node);
+                        if before != after {
+                            ctx.violate("C32", "rejected-write-changed-value", "other-attribute", format!("a Write to attribute {} changed the Value of {}", attr, node));
+                        }
+                        if st.map(|s| s.is_good()).unwrap_or(false) {
+                            // follow an accepted change of the access levels
+                            let aspace = server.address_space();
+                            let a = aspace.read();
+                            if let Some(opcua::server::address_space::types::NodeType::Variable(v)) = a.find_node(&node) {
+                                vars[ni].readable = v.access_level().contains(AccessLevel::CURRENT_READ);
+                                vars[ni].writable = v.access_level().contains(AccessLevel::CURRENT_WRITE);
+                                vars[ni].user_readable = v.user_access_level().contains(UserAccessLevel::CURRENT_READ);
+                                vars[ni].user_writable = v.user_access_level().contains(UserAccessLevel::CURRENT_WRITE);
+                            }
+                        }
+                    }
                 }
             }
             "read" => {
@@ -441,6 +610,20 @@ async fn run(plan: &Value, ctx: &mut Ctx) {
         tokio::time::sleep(std::time::Duration::from_millis(1)).await;
     }
     ctx.advance(1000 * steps.len() as u64);
+}
+
+fn stored_type_ok(kind: &str, v: &Variant) -> bool {
+    let want = match kind {
+        "scalar" | "array" => VariantTypeId::Int32,
+        "str" | "ustr" => VariantTypeId::String,
+        "bytes" => VariantTypeId::ByteString,
+        _ => VariantTypeId::Byte,
+    };
+    match v {
+        Variant::Empty => true,
+        Variant::Array(a) => a.value_type == want,
+        other => other.type_id() == want,
+    }
 }
 
 fn read_full(server: &opcua::server::prelude::Server, node: &NodeId) -> Option<Variant> {
